@@ -696,16 +696,23 @@ func c19HiddenReader(c *Ctx) {
 	expiry := pkgConst(P, "transport", "HiddenModeTimestampExpiration")
 	fs := newFailSet()
 	succ := 0
+	var cur *Path
 	derivesTS := func(v ssa.Value) bool {
 		// value computed from binary.BigEndian.Uint64(...)
 		seen := map[ssa.Value]bool{}
 		var rec func(v ssa.Value, d int) bool
 		rec = func(v ssa.Value, d int) bool {
-			if v == nil || d > 6 || seen[v] {
+			if v == nil || d > 8 || seen[v] {
 				return false
 			}
 			seen[v] = true
 			switch x := v.(type) {
+			case *ssa.Parameter:
+				if cur != nil && x.Parent() != fn {
+					if w := cur.Resolve(x, len(cur.Blocks)-1); w != ssa.Value(x) {
+						return rec(w, d+1)
+					}
+				}
 			case *ssa.Call:
 				return calleeID(x) == "(encoding/binary.bigEndian).Uint64" || calleeID(x) == "(encoding/binary.littleEndian).Uint64"
 			case *ssa.Convert:
@@ -721,11 +728,17 @@ func c19HiddenReader(c *Ctx) {
 		seen := map[ssa.Value]bool{}
 		var rec func(v ssa.Value, d int) bool
 		rec = func(v ssa.Value, d int) bool {
-			if v == nil || d > 6 || seen[v] {
+			if v == nil || d > 8 || seen[v] {
 				return false
 			}
 			seen[v] = true
 			switch x := v.(type) {
+			case *ssa.Parameter:
+				if cur != nil && x.Parent() != fn {
+					if w := cur.Resolve(x, len(cur.Blocks)-1); w != ssa.Value(x) {
+						return rec(w, d+1)
+					}
+				}
 			case *ssa.Call:
 				if calleeID(x) == "(time.Time).Unix" || calleeID(x) == "time.Now" {
 					return true
@@ -743,6 +756,7 @@ func c19HiddenReader(c *Ctx) {
 		if !isSuccess(p) {
 			return
 		}
+		cur = p
 		succ++
 		notFuture, notStale := false, false
 		for k, v := range p.FactsAt(len(p.Blocks) - 1) {
